@@ -191,12 +191,14 @@ func (w *world) newRef(name string, ln int, detail int) *sam.Reference {
 	case 3:
 		uri, _ = url.Parse("http://example.org/ref.fa")
 		assem = "hg19"
+	case 5: // a URI and a user tag together
+		uri, _ = url.Parse("file:///data/ref.fa")
 	}
 	r, err := sam.NewReference(name, assem, species, ln, md5, uri)
 	if err != nil {
 		panic(err)
 	}
-	if detail == 4 {
+	if detail == 4 || detail == 5 {
 		r.Set(sam.NewTag("XY"), "extra")
 	}
 	w.rid(r)
@@ -236,7 +238,7 @@ func (w *world) step() {
 				n := names[r.Intn(len(names))]
 				if !used[n] {
 					used[n] = true
-					initial = append(initial, w.newRef(n, lens[r.Intn(2)], r.Intn(5)))
+					initial = append(initial, w.newRef(n, lens[r.Intn(2)], r.Intn(6)))
 				}
 			}
 		}
@@ -279,7 +281,7 @@ func (w *world) step() {
 			case 1: // a fresh object duplicating an existing name, same length, more detail
 				if rs := hd.Refs(); len(rs) > 0 {
 					e := rs[r.Intn(len(rs))]
-					x = w.newRef(e.Name(), e.Len(), 1+r.Intn(4))
+					x = w.newRef(e.Name(), e.Len(), 1+r.Intn(5))
 				}
 			case 2: // conflicting length
 				if rs := hd.Refs(); len(rs) > 0 {
@@ -288,7 +290,7 @@ func (w *world) step() {
 				}
 			}
 			if x == nil {
-				x = w.newRef(name, lens[r.Intn(2)], r.Intn(5))
+				x = w.newRef(name, lens[r.Intn(2)], r.Intn(6))
 			}
 			var err error
 			res := safely(func() { err = hd.AddReference(x) })
@@ -415,6 +417,7 @@ func (w *world) step() {
 					if (len(x.MD5()) != 0 && len(y.MD5()) != 0 && !bytes.Equal(x.MD5(), y.MD5())) ||
 						(x.AssemblyID() != "" && y.AssemblyID() != "" && x.AssemblyID() != y.AssemblyID()) ||
 						(x.Species() != "" && y.Species() != "" && x.Species() != y.Species()) ||
+						(x.URI() != "" && y.URI() != "" && x.URI() != y.URI()) ||
 						x.Get(sam.NewTag("XY")) != y.Get(sam.NewTag("XY")) {
 						oc = true
 					}
